@@ -73,7 +73,7 @@ struct vf_exc { int code; };
 #define VF_CASSIGN(NAME) vf_tr_cassign_##NAME(this, &o)
 #define VF_MASSIGN(NAME) vf_tr_massign_##NAME(this, &o)
 
-VF_TR_DECL(Tr) VF_TR_DECL(TrX) VF_TR_DECL(TrM) VF_TR_DECL(TrMX) VF_TR_DECL(TrC)
+VF_TR_DECL(Tr) VF_TR_DECL(TrX) VF_TR_DECL(TrM) VF_TR_DECL(TrMX) VF_TR_DECL(TrC) VF_TR_DECL(TrA)
 
 // nothrow move, throwing copy
 struct Tr {
@@ -90,6 +90,14 @@ struct TrX {
   TrX(TrX&& o) { if (vf_fault(VF_K_MOVE)) throw vf_exc{1}; VF_MOVE(TrX); }
   TrX& operator=(const TrX& o) { if (vf_fault(VF_K_CASSIGN)) throw vf_exc{1}; VF_CASSIGN(TrX); return *this; }
   TrX& operator=(TrX&& o) { if (vf_fault(VF_K_MASSIGN)) throw vf_exc{1}; VF_MASSIGN(TrX); return *this; }
+};
+// nothrow move CONSTRUCTION, throwing move ASSIGNMENT (and throwing copies)
+struct TrA {
+  VF_TR_COMMON(TrA)
+  TrA(const TrA& o) { if (vf_fault(VF_K_COPY)) throw vf_exc{1}; VF_COPY(TrA); }
+  TrA(TrA&& o) noexcept { VF_MOVE(TrA); }
+  TrA& operator=(const TrA& o) { if (vf_fault(VF_K_CASSIGN)) throw vf_exc{1}; VF_CASSIGN(TrA); return *this; }
+  TrA& operator=(TrA&& o) { if (vf_fault(VF_K_MASSIGN)) throw vf_exc{1}; VF_MASSIGN(TrA); return *this; }
 };
 // move-only, nothrow move
 struct TrM {
@@ -119,6 +127,12 @@ struct Tv { int val; int pad0; int pad1; int pad2;   // 16 bytes like the instru
   friend bool operator!=(const Tv& a, const Tv& b) noexcept { return a.val != b.val; }
   friend bool operator<(const Tv& a, const Tv& b) noexcept { return a.val < b.val; } };
 
+// legacy-style type without operator<=>: operator< orders by a key (low byte) only, operator== compares the whole value (finer than the order's equivalence)
+struct Tw { int val; int pad0; int pad1; int pad2;
+  friend bool operator==(const Tw& a, const Tw& b) noexcept { return a.val == b.val; }
+  friend bool operator!=(const Tw& a, const Tw& b) noexcept { return a.val != b.val; }
+  friend bool operator<(const Tw& a, const Tw& b) noexcept { return (a.val & 0xff) < (b.val & 0xff); } };
+
 template <typename T> struct vf_elem;   // uniform access to element values
 template <typename T> struct vf_elem_tr {
   static constexpr bool instrumented = true;
@@ -133,6 +147,7 @@ template <> struct vf_elem<TrX>  : vf_elem_tr<TrX> {};
 template <> struct vf_elem<TrM>  : vf_elem_tr<TrM> {};
 template <> struct vf_elem<TrMX> : vf_elem_tr<TrMX> {};
 template <> struct vf_elem<TrC>  : vf_elem_tr<TrC> {};
+template <> struct vf_elem<TrA>  : vf_elem_tr<TrA> {};
 template <typename T> struct vf_elem_triv {
   static constexpr bool instrumented = false;
   static uint32_t state(const void *) noexcept { return VF_LIVE; }
@@ -145,6 +160,9 @@ template <> struct vf_elem<int> : vf_elem_triv<int> {
 template <> struct vf_elem<unsigned char> : vf_elem_triv<unsigned char> {
   static void make(void *p, uint32_t v) noexcept { *static_cast<unsigned char *>(p) = (unsigned char)v; }
   static uint32_t val(const unsigned char& e) noexcept { return e; } };
+template <> struct vf_elem<Tw> : vf_elem_triv<Tw> {
+  static void make(void *p, uint32_t v) noexcept { static_cast<Tw *>(p)->val = (int)v; }
+  static uint32_t val(const Tw& e) noexcept { return (uint32_t)e.val; } };
 template <> struct vf_elem<Tv> : vf_elem_triv<Tv> {
   static void make(void *p, uint32_t v) noexcept { static_cast<Tv *>(p)->val = (int)v; }
   static uint32_t val(const Tv& e) noexcept { return (uint32_t)e.val; } };
@@ -154,9 +172,12 @@ template <typename T, bool I = vf_elem<T>::instrumented> struct vf_mk;
 template <typename T> struct vf_mk<T, true>  { static T of(uint32_t v) { return T((int)v); } };
 template <> struct vf_mk<int, false> { static int of(uint32_t v) { return (int)v; } };
 template <> struct vf_mk<unsigned char, false> { static unsigned char of(uint32_t v) { return (unsigned char)v; } };
+template <> struct vf_mk<Tw, false> { static Tw of(uint32_t v) { Tw t; t.val = (int)v; t.pad0 = 0; t.pad1 = 0; t.pad2 = 0; return t; } };
 template <> struct vf_mk<Tv, false> { static Tv of(uint32_t v) { Tv t; t.val = (int)v; t.pad0 = 0; t.pad1 = 0; t.pad2 = 0; return t; } };
 // what a stored element reads back as, for a value v given by the user
 template <typename T> inline uint32_t vf_norm(uint32_t v) { return v; }
+template <typename T> inline int vf_order_key(uint32_t v) { return (int)v; }   // what the element's operator< compares
+template <> inline int vf_order_key<Tw>(uint32_t v) { return (int)(v & 0xffu); }
 template <> inline uint32_t vf_norm<unsigned char>(uint32_t v) { return v & 0xffu; }
 
 // ---------------------------------------------------------------- allocator
@@ -207,6 +228,11 @@ inline bool operator==(const vf_alloc<T, FL, S>& a, const vf_alloc<U, FL, S>& b)
 template <typename T, typename U, unsigned FL, typename S>
 inline bool operator!=(const vf_alloc<T, FL, S>& a, const vf_alloc<U, FL, S>& b) noexcept { return !(a == b); }
 
+// uniform construction / identification of allocators (std::allocator has no id: every instance is the same owner, id 0)
+template <typename A> struct vf_amk { static A of(int id) { return A(id); } static uint32_t lid(const A& a) noexcept { return a.ledger_id(); } };
+template <typename T> struct vf_amk<std::allocator<T>> { static std::allocator<T> of(int) { return std::allocator<T>(); } static uint32_t lid(const std::allocator<T>&) noexcept { return 0; } };
+#define VF_STD_ALLOC_ID 0u
+
 // ---------------------------------------------------------------- state builder and INV
 // Private members of the header are reached with clang's -fno-access-control (harness TU only).
 template <typename V> struct vf_sv;
@@ -232,7 +258,7 @@ struct vf_sv<gch::small_vector<T, N, A>> {
     b.set_data(p, (typename V::size_ty)cap, (typename V::size_ty)size);
   }
 
-  static uint32_t id_of(const V& v) noexcept { return v.get_allocator().ledger_id(); }
+  static uint32_t id_of(const V& v) noexcept { return vf_amk<A>::lid(v.get_allocator()); }
 
   // representation invariant (C02) + lifetime/ledger agreement (C03/C04) of one container
   static void check_inv(V& v, uint32_t expect_id_known, uint32_t expect_id) {
@@ -258,7 +284,7 @@ struct vf_sv<gch::small_vector<T, N, A>> {
     vf_assert((std::size_t)(v.cend() - v.cbegin()) == sz, "C02: cend()-cbegin() == size()");
     vf_assert((std::size_t)(v.rend() - v.rbegin()) == sz, "C02: rend()-rbegin() == size()");
     vf_assert(v.empty() == (sz == 0), "C02: empty() iff size()==0");
-    if (expect_id_known) vf_assert(v.get_allocator() == A((int)expect_id), "C07: get_allocator() is the expected allocator");
+    if (expect_id_known) vf_assert(v.get_allocator() == vf_amk<A>::of((int)expect_id), "C07: get_allocator() is the expected allocator");
     for (std::size_t i = 0; i < VF_MAXCAP; ++i) if (i < cap) {
       if (i < sz) {
         vf_assert(&v[i] == d + i, "C02: &v[i] == data()+i");
